@@ -49,18 +49,20 @@ namespace Kopf.C20
 /-- The root tasks of `spawn_tasks` (default configuration: no liveness endpoint, no `_command`). -/
 inductive Root where
   | stopFlag | ultimate | startupCleanup
+  | coreWatcher   -- (variant `cfg.coreWatched` only) the proposed "core tasks watcher"; a phantom otherwise
   | daemonKiller | poster | admChain | admValidating | admMutating | admServer
   | resObserver | nsObserver | orchestrator
   deriving DecidableEq, Repr
 
 def Root.all : List Root :=
-  [.stopFlag, .ultimate, .startupCleanup, .daemonKiller, .poster, .admChain, .admValidating,
+  [.stopFlag, .ultimate, .startupCleanup, .coreWatcher, .daemonKiller, .poster, .admChain, .admValidating,
    .admMutating, .admServer, .resObserver, .nsObserver, .orchestrator]
 
 theorem Root.mem_all (r : Root) : r ∈ Root.all := by cases r <;> simp [Root.all]
 
 inductive RKind where
   | flagChecker | ultimate | startupCleanup
+  | coreWatch     -- unguarded; awaits the core tasks (FIRST_COMPLETED) and re-raises their errors
   | simple        -- guarded; a cancellation ends it at once
   | killer        -- guarded; `daemon_killer`: on cancellation spawns the exit stoppers and awaits them
   | observer      -- guarded; runs `queueing.watcher` itself (CRDs / namespaces)
@@ -71,6 +73,7 @@ def Root.kind : Root → RKind
   | .stopFlag => .flagChecker
   | .ultimate => .ultimate
   | .startupCleanup => .startupCleanup
+  | .coreWatcher => .coreWatch
   | .daemonKiller => .killer
   | .poster | .admChain | .admValidating | .admMutating | .admServer => .simple
   | .resObserver | .nsObserver => .observer
@@ -169,6 +172,7 @@ inductive Actor where
 
 structure Cfg where
   fixed : Bool   -- the variant with the edge "failed ensemble task → orchestrator"
+  coreWatched : Bool  -- the variant with the edge "failed core task → a root task" (proposed repair of C20-F6)
   E : Nat        -- settings.queueing.exit_timeout
   W : Nat        -- bound of the peering withdrawal (retries of one PATCH)
   D : Nat        -- bound of one exit stopper: max (cancellation_backoff + cancellation_timeout) over daemons
@@ -192,12 +196,15 @@ structure State where
   werr : Task → Bool              -- the watcher's `worker_error is not None`
   kind : Nat → SubKind
   nSubs : Nat
-  withdrawn : Nat → Bool          -- the keep-alive sent its `lifetime=0` PATCH
+  withdrawn : Nat → Bool          -- the keep-alive sent its `lifetime=0` PATCH (an ATTEMPT: kopf ignores its failure)
+  withdrawnOk : Nat → Bool        -- ... and the API accepted it
   gone : Nat → Bool               -- the watcher ended with HTTP 404: its resource is gone (e.g. CRD deleted)
   wk : Nat → Option (Task × WS)   -- workers: owner and status
   nWorkers : Nat
   dm : Nat → DS
   nDaemons : Nat
+  coop : Nat → Bool               -- the daemon exits when its stopper asks it to (flag, or cancellation within the timeout)
+  stopReq : Nat → Bool            -- `daemon_killer` has spawned an exit stopper for this daemon
   core : TS
   coreCreq : Bool
   started : Bool                  -- `started_flag`
@@ -210,6 +217,7 @@ structure State where
   killed : Bool                   -- `daemon_killer`'s `finally:` ran (exit stoppers spawned)
   orchErr : Bool                  -- (fixed variant) the orchestrator was cancelled by a failed ensemble task
   t0 : Option Nat                 -- when `run_tasks` began to stop the root tasks
+  tFail : Option Nat              -- ghost: when the first ESCALATING failure of a task happened (see `markFail`)
   exitAt : Option Nat
   result : Option Res
   -- history (ghost) variables
@@ -228,6 +236,7 @@ def init : State :=
   { now := 0, st := initSt, creq := fun _ => false, werr := fun _ => false,
     kind := fun _ => .watcher, nSubs := 0, withdrawn := fun _ => false, gone := fun _ => false,
     wk := fun _ => none, nWorkers := 0, dm := fun _ => .absent, nDaemons := 0,
+    coop := fun _ => false, stopReq := fun _ => false, withdrawnOk := fun _ => false, tFail := none,
     core := .waitingFlag, coreCreq := false, started := false, ready := false,
     sc := .init, rt := .waiting, stopFlagSet := false, waiter := true, orphans := 0, killed := false,
     orchErr := false, t0 := none, exitAt := none, result := none,
@@ -259,12 +268,12 @@ inductive Label where
   | subStopping (i : Nat) (fail : Bool)
   | subGone (i : Nat)
   | subCancel (i : Nat)
-  | withdraw (i : Nat)
+  | withdraw (i : Nat) (ok : Bool)
   | subEnd (i : Nat) (how : TS)
   -- workers, daemons, helper
   | workerStart (o : Task)
   | workerEnd (w : Nat) (how : WS)
-  | daemonSpawn
+  | daemonSpawn (coop : Bool)
   | daemonExit (d : Nat)
   | waiterEnd
   | orphan
@@ -358,6 +367,7 @@ def urgent (cfg : Cfg) (s : State) : Bool :=
   || (s.core.live && s.coreCreq)
   || (s.started && (s.core == .waitingFlag || Root.all.any (fun r => s.st (.root r) == .waitingFlag)))
   || (s.stopFlagSet && s.st (.root .stopFlag) == .running)
+  || (cfg.coreWatched && s.core == .failed && s.st (.root .coreWatcher) == .running)
   || (match s.st (.root .orchestrator) with | .stopping _ _ => noLiveSub s | _ => false)
 
 def deadlinesAllow (cfg : Cfg) (s : State) (n : Nat) : Bool :=
@@ -368,12 +378,33 @@ def deadlinesAllow (cfg : Cfg) (s : State) (n : Nat) : Bool :=
 
 def failTS (fail : Bool) : TS := if fail then .failed else .cancelled
 
+/-- ghost: remember the time of the FIRST failure that the code escalates (a failing stream or task whose owner
+    is still listening; NOT an HTTP 404 of a gone resource, NOT a worker failing while its watcher is already in
+    its `finally:`, NOT a failing cleanup) -/
+def markFail (s : State) : Option Nat :=
+  match s.tFail with
+  | some t => some t
+  | none => some s.now
+
+/-- `daemon_killer`'s `finally:`: one exit stopper per daemon that is running now -/
+def stopReqNow (s : State) : Nat → Bool :=
+  fun d => s.stopReq d || (decide (d < s.nDaemons) && s.dm d == .running)
+
+/-- the exit stoppers of the cooperative daemons are over (their daemons have exited) -/
+def coopStopped (s : State) : Bool :=
+  (List.range s.nDaemons).all (fun d => !(s.stopReq d && s.coop d && s.dm d == .running))
+
+/-- time may pass by `n`: nothing instantaneous is pending, no active deadline is overrun. A run all of whose `delay`
+    labels satisfy this is COOPERATIVE (`Coop`): tasks honour cancellation at once, waits end when their condition
+    holds, and the timed waits (E, W, D, C, H) are kept. -/
+def coopDelay (cfg : Cfg) (s : State) (n : Nat) : Bool :=
+  !urgent cfg s && deadlinesAllow cfg s n
+
 /-- One atomic segment. `none` = the label is not enabled in `s`. -/
 def step (cfg : Cfg) (s : State) : Label → Option State
   | .delay n =>
-    if s.rt ≠ .exited ∧ 0 < n ∧ urgent cfg s = false ∧ deadlinesAllow cfg s n = true then
-      some { s with now := s.now + n }
-    else none
+    -- time passes, cooperatively or not (see `coopDelay`)
+    if s.rt ≠ .exited ∧ 0 < n then some { s with now := s.now + n } else none
   | .setStopFlag =>
     -- external: the stop flag is raised; the `stop-flag waiter` task finishes
     if s.rt ≠ .exited ∧ s.stopFlagSet = false then
@@ -386,7 +417,8 @@ def step (cfg : Cfg) (s : State) : Label → Option State
     if s.rt ≠ .exited ∧ s.sc = .startup then
       match o with
       | .none => some { s with sc := .startupOk, startupDone := true }
-      | .failed => some { s with sc := .stopCore .failed, startupFailed := true, startupRaised := true }
+      | .failed => some { s with sc := .stopCore .failed, startupFailed := true, startupRaised := true,
+                                 tFail := markFail s }
       | .cancelled =>
         if s.creq (.root .startupCleanup) = true then
           some { s with sc := .stopCore .cancelled, startupFailed := true,
@@ -415,7 +447,8 @@ def step (cfg : Cfg) (s : State) : Label → Option State
     if s.rt ≠ .exited ∧ s.core.live = false then
       match s.sc with
       | .coreStopping .none =>
-        if s.core = .failed then some { s with sc := .over .failed }
+        -- as the code is, `reraise(core_done)` comes BEFORE the cleanup activity: a failed core task skips it
+        if s.core = .failed ∧ cfg.coreWatched = false then some { s with sc := .over .failed }
         else some { s with sc := .cleanup s.now, cleanupBegun := true }
       | .coreStopping p => some { s with sc := .over p }
       | _ => none
@@ -432,7 +465,10 @@ def step (cfg : Cfg) (s : State) : Label → Option State
       | _, _ => none
     else none
   | .vaultClosed =>
-    if s.rt ≠ .exited ∧ s.sc = .closing then some { s with sc := .over .none } else none
+    -- (variant `coreWatched`: the errors of the core tasks are re-raised here, after the cleanup)
+    if s.rt ≠ .exited ∧ s.sc = .closing then
+      some { s with sc := .over (if s.core = .failed then .failed else .none) }
+    else none
   -- ---------------------------------------------------------------- guarded tasks
   | .enter r =>
     if s.rt ≠ .exited ∧ s.st (.root r) = .waitingFlag ∧ s.started = true ∧ s.creq (.root r) = false then
@@ -446,7 +482,7 @@ def step (cfg : Cfg) (s : State) : Label → Option State
     if s.rt ≠ .exited ∧ s.core.live = true then
       match how with
       | .cancelled => if s.coreCreq = true then some { s with core := .cancelled, coreCreq := false } else none
-      | .failed => if s.core = .running then some { s with core := .failed } else none
+      | .failed => if s.core = .running then some { s with core := .failed, tFail := markFail s } else none
       | _ => none
     else none
   | .rootStopping r fail =>
@@ -456,7 +492,7 @@ def step (cfg : Cfg) (s : State) : Label → Option State
         -- the watcher's `finally:`: a stream failure or a failed worker (`fail`), or a plain cancellation
         if fail = true ∨ (s.creq (.root r) = true ∧ s.werr (.root r) = false) then
           some { s with st := upd s.st (.root r) (.stopping fail (some (s.now + cfg.E))),
-                        creq := upd s.creq (.root r) false }
+                        creq := upd s.creq (.root r) false, tFail := if fail then markFail s else s.tFail }
         else none
       | .killer =>
         -- `finally:` spawn an exit stopper per running daemon, `await scheduler.wait()`.
@@ -464,7 +500,7 @@ def step (cfg : Cfg) (s : State) : Label → Option State
         -- from that dict ("dictionary changed size during iteration", finding C20-F4)
         if s.creq (.root r) = true then
           some { s with st := upd s.st (.root r) (.stopping fail (some (s.now + cfg.D))),
-                        creq := upd s.creq (.root r) false, killed := true }
+                        creq := upd s.creq (.root r) false, killed := true, stopReq := stopReqNow s }
         else none
       | .orchestrator =>
         -- `except CancelledError: await stop(ensemble tasks); raise`
@@ -477,7 +513,8 @@ def step (cfg : Cfg) (s : State) : Label → Option State
   | .rootEnd r how =>
     if s.rt ≠ .exited ∧ how.ended = true then
       let fin : State := { s with st := upd s.st (.root r) how, creq := upd s.creq (.root r) false,
-                                  rootFailed := s.rootFailed || how == .failed }
+                                  rootFailed := s.rootFailed || how == .failed,
+                                  tFail := if how = .failed ∧ s.st (.root r) = .running then markFail s else s.tFail }
       match r.kind with
       | .flagChecker =>
         if s.st (.root r) = .running ∧ how = .done ∧ (s.stopFlagSet = true ∨ s.creq (.root r) = true) then some fin
@@ -486,8 +523,14 @@ def step (cfg : Cfg) (s : State) : Label → Option State
         if s.st (.root r) = .running ∧ how = .done ∧ s.creq (.root r) = true then some fin else none
       | .startupCleanup =>
         match s.sc with
-        | .over p => if s.st (.root r) = .running ∧ how = p.ts then some fin else none
+        | .over p => if s.st (.root r) = .running ∧ how = p.ts then some { fin with tFail := s.tFail } else none
         | _ => none
+      | .coreWatch =>
+        -- `await wait(core_tasks, FIRST_COMPLETED); reraise(done)` — exists only in the variant `coreWatched`
+        if s.st (.root r) = .running ∧ how = .cancelled ∧ s.creq (.root r) = true then some fin
+        else if s.st (.root r) = .running ∧ how = .failed ∧ cfg.coreWatched = true ∧ s.core = .failed then
+          some { fin with tFail := s.tFail }
+        else none
       | .simple =>
         if (s.st (.root r) = .waitingFlag ∨ s.st (.root r) = .running) ∧ how = .cancelled ∧ s.creq (.root r) = true then
           some fin
@@ -498,10 +541,12 @@ def step (cfg : Cfg) (s : State) : Label → Option State
         | .waitingFlag => if how = .cancelled ∧ s.creq (.root r) = true then some fin else none
         | .running =>
           -- no daemon to stop: the `finally:` is over at once
-          if how = .cancelled ∧ s.creq (.root r) = true then some { fin with killed := true }
+          if how = .cancelled ∧ s.creq (.root r) = true ∧ anyDaemonRunning s = false then some { fin with killed := true }
           else if how = .failed then some fin
           else none
-        | .stopping f _ => if how = failTS f then some fin else none
+        -- `await scheduler.wait()`: until every exit stopper is over — a cooperative daemon has exited by then,
+        -- the others are given up ("orphaned") after their timeouts; a crashed `finally:` (C20-F4) awaits nothing
+        | .stopping f _ => if how = failTS f ∧ (f = false → coopStopped s = true) then some fin else none
         | _ => none
       | .observer =>
         if noLiveWorkerOf s (.root r) = true then
@@ -525,20 +570,24 @@ def step (cfg : Cfg) (s : State) : Label → Option State
     if s.rt ≠ .exited ∧ s.st (.root .orchestrator) = .running then
       some { s with st := upd s.st (.sub s.nSubs) .running, kind := upd s.kind s.nSubs k,
                     creq := upd s.creq (.sub s.nSubs) false, werr := upd s.werr (.sub s.nSubs) false,
-                    withdrawn := upd s.withdrawn s.nSubs false, gone := upd s.gone s.nSubs false,
+                    withdrawn := upd s.withdrawn s.nSubs false, withdrawnOk := upd s.withdrawnOk s.nSubs false,
+                    gone := upd s.gone s.nSubs false,
                     nSubs := s.nSubs + 1 }
     else none
   | .subStopping i fail =>
     if s.rt ≠ .exited ∧ i < s.nSubs ∧ s.st (.sub i) = .running
         ∧ (fail = true ∨ (s.creq (.sub i) = true ∧ s.werr (.sub i) = false)) then
       some { s with st := upd s.st (.sub i) (.stopping fail (some (s.now + grace cfg s (.sub i)))),
-                    creq := upd s.creq (.sub i) false }
+                    creq := upd s.creq (.sub i) false, tFail := if fail then markFail s else s.tFail }
     else none
   | .subGone i =>
     -- the (re-)listing of the watcher got HTTP 404 (`APINotFoundError`): the resource is gone, e.g. its CRD was
     -- deleted and the watcher noticed before the resource observer did. The task ends with that exception,
     -- but this is NOT a failure for the orchestrator (see `subEnd`).
-    if s.rt ≠ .exited ∧ i < s.nSubs ∧ s.st (.sub i) = .running ∧ s.kind i ≠ .pinger then
+    -- A pending cancellation wins over the 404 (`Task.cancel()` makes the next step raise CancelledError whatever
+    -- the awaited request returned), so a watcher whose worker has failed cannot end this way.
+    if s.rt ≠ .exited ∧ i < s.nSubs ∧ s.st (.sub i) = .running ∧ s.kind i ≠ .pinger
+        ∧ s.creq (.sub i) = false ∧ s.werr (.sub i) = false then
       some { s with st := upd s.st (.sub i) (.stopping true (some (s.now + grace cfg s (.sub i)))),
                     creq := upd s.creq (.sub i) false, gone := upd s.gone i true }
     else none
@@ -552,10 +601,12 @@ def step (cfg : Cfg) (s : State) : Label → Option State
       | .stopping _ _ => some s
       | _ => none
     else none
-  | .withdraw i =>
+  | .withdraw i ok =>
+    -- the shielded `touch(lifetime=0)`; `ok = false`: the PATCH failed after its retries — logged and IGNORED by kopf
     if s.rt ≠ .exited ∧ i < s.nSubs ∧ s.kind i = .pinger then
       match s.st (.sub i) with
-      | .stopping _ _ => some { s with withdrawn := upd s.withdrawn i true, acts := s.acts + 1 }
+      | .stopping _ _ => some { s with withdrawn := upd s.withdrawn i true,
+                                       withdrawnOk := upd s.withdrawnOk i (s.withdrawnOk i || ok), acts := s.acts + 1 }
       | _ => none
     else none
   | .subEnd i how =>
@@ -595,13 +646,15 @@ def step (cfg : Cfg) (s : State) : Label → Option State
           -- `_task_done_callback` → `exception_handler`: the first error cancels the watcher
           if s.st o = .running ∧ s.werr o = false then
             some { s with wk := upd s.wk w (some (o, .failed)), werr := upd s.werr o true,
-                          creq := upd s.creq o true }
+                          creq := upd s.creq o true, tFail := markFail s }
+          -- the watcher is already in its `finally:` (or has a first error): the failure is only logged
           else some { s with wk := upd s.wk w (some (o, .failed)) }
       | _ => none
     else none
-  | .daemonSpawn =>
+  | .daemonSpawn c =>
     if s.rt ≠ .exited ∧ anyLiveWorker s = true then
-      some { s with dm := upd s.dm s.nDaemons .running, nDaemons := s.nDaemons + 1 }
+      some { s with dm := upd s.dm s.nDaemons .running, coop := upd s.coop s.nDaemons c,
+                    stopReq := upd s.stopReq s.nDaemons false, nDaemons := s.nDaemons + 1 }
     else none
   | .daemonExit d =>
     if s.rt ≠ .exited ∧ d < s.nDaemons ∧ s.dm d = .running then
@@ -674,8 +727,13 @@ def headRestartsExited : Bool := true
     behind (the model still ALLOWS orphans — other helpers may be left behind —, so this is only tied, not used) -/
 def headScanCancelsChildren : Bool := true
 
+/-- a root task awaits the core tasks and re-raises their errors: the edge guarded by `cfg.coreWatched`.
+    FALSE of the current tree (finding C20-F6: a failed credentials retriever is only logged) -/
+def headWatchesCore : Bool := false
+
 /-- the configuration of the model of the current tree -/
-def headCfg (e w d c h : Nat) : Cfg := { fixed := headEscalates, E := e, W := w, D := d, C := c, H := h }
+def headCfg (e w d c h : Nat) : Cfg :=
+  { fixed := headEscalates, coreWatched := headWatchesCore, E := e, W := w, D := d, C := c, H := h }
 
 /-- Replay a label list. -/
 def run (cfg : Cfg) : State → List Label → Option State
@@ -687,5 +745,23 @@ def run (cfg : Cfg) : State → List Label → Option State
 
 /-- `s` is reachable by some label list. -/
 def Reach (cfg : Cfg) (s : State) : Prop := ∃ ls, run cfg init ls = some s
+
+/-! ### cooperative runs: the explicit form of "tasks honour cancellation, waits end when their condition holds, the
+    timed waits are kept" — time passes only where `coopDelay` allows it -/
+
+/-- one step of a cooperative run -/
+def stepC (cfg : Cfg) (s : State) : Label → Option State
+  | .delay n => if coopDelay cfg s n = true then step cfg s (.delay n) else none
+  | l => step cfg s l
+
+def runC (cfg : Cfg) : State → List Label → Option State
+  | s, [] => some s
+  | s, l :: ls =>
+    match stepC cfg s l with
+    | some s' => runC cfg s' ls
+    | none => none
+
+/-- `s` is reachable by a cooperative run. -/
+def ReachC (cfg : Cfg) (s : State) : Prop := ∃ ls, runC cfg init ls = some s
 
 end Kopf.C20
